@@ -9,7 +9,9 @@
 //	mapping routes, Splunk `index`, OTLP `siglensIndexName`, delete-index incl. comma lists and `cluster:` prefixes),
 //	alias names, lookup file names (upload form value, get/delete route, `| inputlookup`), dashboard and folder ids and
 //	names, saved-query names, metric names / TAG KEYS / tag values through OTSDB, Prometheus remote write (several
-//	samples per series) and OTLP, scroll ids, sort columns, static paths.  After EVERY request (followed by the flush
+//	samples per series) and OTLP, the same three in metrics QUERIES (OpenTSDB query and query expressions, PromQL, label
+//	values, metrics explorer), scroll ids, sort columns, static paths, ids of alerts / contacts / dashboard panels, the
+//	remaining ES bulk actions and routes (see c19eKinds).  After EVERY request (followed by the flush
 //	calls of the server's shutdown path, so that deferred writes such as tags-tree files happen now) the parent
 //	compares a snapshot (type, size, mtime, content hash) of everything in the sandbox OUTSIDE data/ and logs/ with the
 //	snapshot before: any created, modified or deleted entry is a PropFail; so is a response that contains the secret
@@ -24,6 +26,15 @@
 // Safety of the harness itself: a name carries at most 7 dot-dot units (in any spelling) and every directory a name
 // can be joined to lies at least 7 levels below the sandbox root; absolute names point into the sandbox
 // (placeholder @ROOT@).  So even a server that confines nothing stays inside /tmp/c19e-XXXX.
+//
+// Reads: an inotify instance per sandbox watches every directory outside data/ and logs/ for IN_ACCESS (read, pread,
+// getdents by ANY process); events on victim entries (c19victim*) between two of the parent's own snapshots are reads by
+// the server: PropFail `…/read-outside` even when nothing of the content comes back in a response.  os.Stat and an open
+// without a read are not visible this way (suite path, `preal tagsTreeRead`, covers the one reader found so far).
+//
+// Restart: every server is restarted once before its first scenario (flush calls of the shutdown path, kill, new process on
+// the same directories and ports), so that the metrics of the bootstrap are ROTATED segments whose tags trees are read from
+// one file per tag key; the step `restart` does the same inside a scenario (names stored before, used after).
 //
 // Output line: `ok <number of steps>` (the Lean side only checks the op-line grammar) — the verdict is the PropFail.
 package main
@@ -40,6 +51,7 @@ import (
 	"math/rand"
 	"mime/multipart"
 	"net"
+	"net/textproto"
 	"net/url"
 	"os"
 	"os/exec"
@@ -47,23 +59,27 @@ import (
 	"sort"
 	"strings"
 	"sync"
+	"syscall"
 	"time"
+	"unsafe"
 
 	"github.com/gogo/protobuf/proto"
 	"github.com/golang/snappy"
 	"github.com/prometheus/prometheus/prompb"
 	collogpb "go.opentelemetry.io/proto/otlp/collector/logs/v1"
 	collmetricspb "go.opentelemetry.io/proto/otlp/collector/metrics/v1"
+	coltracepb "go.opentelemetry.io/proto/otlp/collector/trace/v1"
 	commonpb "go.opentelemetry.io/proto/otlp/common/v1"
 	logpb "go.opentelemetry.io/proto/otlp/logs/v1"
 	metricspb "go.opentelemetry.io/proto/otlp/metrics/v1"
 	resourcepb "go.opentelemetry.io/proto/otlp/resource/v1"
+	tracepb "go.opentelemetry.io/proto/otlp/trace/v1"
 	gproto "google.golang.org/protobuf/proto"
 )
 
 func init() {
 	register(&Suite{Name: "confine", Gen: c19eGen, Exec: c19eExec, Parallel: c19eWorkers,
-		Rule: "end to end on a real server process (cmd/startup.Main) inside a sandbox tree with victim files at every level: scenarios of requests with hostile and ordinary names through every name-carrying route (raw TCP, client-encoded, handler level); after every request + flush the snapshot of everything outside data/ and logs/ must be unchanged and no response may contain a victim's secret; distinct = sha1(op line); non-trivial = the scenario holds a hostile name"})
+		Rule: "end to end on a real server process (cmd/startup.Main) inside a sandbox tree with victim files at every level: scenarios of requests with hostile and ordinary names through every name-carrying route (raw TCP, client-encoded, handler level); every server has been restarted once (its first metrics are rotated segments) and scenarios restart it again; after every request + flush the snapshot of everything outside data/ and logs/ must be unchanged, no response may contain a victim's secret and the kernel must not have seen a read (inotify IN_ACCESS) of a victim file or directory; distinct = sha1(op line); non-trivial = the scenario holds a hostile name"})
 }
 
 const c19eWorkers = 4
@@ -97,7 +113,7 @@ var c19eKinds = map[string]c19eKind{
 	"palE": {2, false, "alias"}, "palH": {2, false, "alias"}, "galE": {1, false, "alias"}, "galH": {1, false, "alias"},
 	"headE": {1, false, "alias"}, "headH": {1, false, "alias"},
 	// lookups
-	"upload": {1, false, "lookup"}, "uploadO": {1, false, "lookup"},
+	"upload": {1, false, "lookup"}, "uploadO": {1, false, "lookup"}, "uploadF": {1, false, "lookup"}, // uploadF: the name is the multipart FILE name
 	"lkgetR": {1, false, "lookup"}, "lkgetE": {1, false, "lookup"}, "lkgetH": {1, true, "lookup"},
 	"lkdelR": {1, false, "lookup"}, "lkdelE": {1, false, "lookup"}, "lkdelH": {1, true, "lookup"},
 	"ilookup": {1, false, "lookup"},
@@ -112,6 +128,24 @@ var c19eKinds = map[string]c19eKind{
 	"otlpM": {1, false, "metric"}, "otlpK": {1, false, "tagkey"}, "otlpV": {1, false, "tagvalue"},
 	// misc
 	"scroll": {1, false, "scrollid"}, "staticR": {1, false, "static"}, "staticE": {1, false, "static"}, "pqsE": {1, false, "pqid"},
+	// the server is restarted (flush calls of the shutdown path, process end, new process on the same directories)
+	"restart": {0, false, "restart"},
+	// metrics QUERIES: tag key / metric name / label name of a query (the tags tree of a rotated segment is one FILE PER TAG KEY,
+	// opened by name for every tag filter): OpenTSDB GET query (exact, wildcard and value-list filter), OpenTSDB query
+	// expressions (JSON tagk), PromQL instant + range query, label values route, series match[], metrics explorer
+	"oqK": {1, false, "qtagkey"}, "oqM": {1, false, "qmetric"}, "oxK": {1, false, "qtagkey"}, "oxKH": {1, false, "qtagkey"},
+	"pqK": {1, false, "qtagkey"}, "pqM": {1, false, "qmetric"}, "plvE": {1, false, "qtagkey"}, "plvH": {1, true, "qtagkey"}, "psK": {1, false, "qtagkey"},
+	"mxTags": {1, false, "qmetric"}, "mxQ": {1, false, "qtagkey"},
+	// index names: the remaining protocols and routes
+	"bulkCreate": {1, false, "index"}, "bulkUpdate": {1, false, "index"}, "bulkDelete": {1, false, "index"}, "bulkQ": {1, false, "index"},
+	"docCreateE": {1, false, "index"}, "docUpdateE": {1, false, "index"}, "docPostE": {1, false, "index"}, "mapE": {1, false, "index"}, "mapH": {1, false, "index"},
+	"headIE": {1, false, "index"}, "esSrchE": {1, false, "index"}, "esSrchH": {1, false, "index"}, "esDocGetE": {1, false, "index"},
+	"listCols": {1, false, "index"}, "pqsAggs": {2, false, "index"}, "dbpanE": {1, false, "panelid"}, "jaegerE": {1, false, "service"},
+	"lokiL": {1, false, "column"}, "otlpTrace": {1, false, "service"},
+	// dashboards / folders: the remaining routes, ids inside bodies
+	"foldUpdE": {2, false, "dashboard"}, "foldCntE": {1, false, "dashboard"}, "dashNewP": {1, false, "dashboard"}, "dashMove": {1, false, "dashboard"},
+	// alerts, contacts, minion searches (kept in a database file with a fixed name; names must stay rows)
+	"alertGetE": {1, false, "alert"}, "alertHistE": {1, false, "alert"}, "minionGetE": {1, false, "alert"}, "contactNew": {1, false, "alert"},
 }
 
 var c19eKindNames = func() []string {
@@ -127,7 +161,7 @@ var c19eKindNames = func() []string {
 
 var c19eUpUnits = []string{"../", "../", "../", "../", "..%2F", "..%2f", "%2e%2e/", "%2e%2e%2f", "%2E%2E%2F", "%252e%252e%252f", "..%252f",
 	"..\\", "..%5c", ".%2e/", "%2e./", "..//", ".././", "....//", "..;/", "．．/", "‥/", "..%c0%af", "..\x00/"}
-var c19eLeaves = []string{"c19victim", "c19victim", "c19victim.csv", "c19victim.json", "c19victim.txt", "c19victim/important.txt", "c19victim/important.csv",
+var c19eLeaves = []string{"c19victim", "c19victim", "c19victim.csv", "c19victim.json", "c19victim.txt", "c19victim.tt", "c19victim/important.txt", "c19victim/important.csv",
 	"c19new", "c19new.csv", "c19victim.csv.gz", "server.yaml", "static/index.html", "c19victim/"}
 var c19eValidNames = []string{"c19ok", "c19idx", "c19-idx_2", "c19.metrics.cpu", "évts", "日本", "a b", "...", "..a", "a..", ".hidden", "%2e%2e", "%2f", "x.csv", "c19lk.csv",
 	"c19lk.csv.gz", "host", "host.name", "k8s.pod.name", "~tmp", "a:b", "A1", "c19boot"}
@@ -240,15 +274,21 @@ func c19eStep(kind string, names ...string) string {
 }
 
 var c19eIndexKinds = []string{"bulk", "bulkH", "docR", "docE", "docH", "pidxR", "pidxE", "pidxH", "splunk", "otlplog", "delR", "delE", "delH", "delH", "delH", "delapiE", "srchidx"}
-var c19eLookupKinds = []string{"upload", "uploadO", "upload", "uploadO", "lkgetR", "lkgetE", "lkgetH", "lkdelR", "lkdelE", "lkdelH", "ilookup", "ilookup"}
+var c19eLookupKinds = []string{"upload", "uploadO", "upload", "uploadO", "uploadF", "lkgetR", "lkgetE", "lkgetH", "lkdelR", "lkdelE", "lkdelH", "ilookup", "ilookup"}
 var c19eMetricKinds = []string{"otsdbM", "otsdbK", "otsdbK", "otsdbV", "promM", "promK", "promK", "promK", "promKH", "promV", "otlpM", "otlpK", "otlpK", "otlpV"}
 var c19eDashKinds = []string{"dashNew", "dashUpd", "dashGetE", "dashGetH", "dashDelE", "dashDelH", "dashFavE", "foldNew", "foldGetE", "foldDelE", "usqSave", "usqGetE", "usqDelE", "usqGetH"}
 var c19eAliasKinds = []string{"aliasAdd", "aliasAdd", "aliasRm", "palE", "palH", "galE", "galH", "headE", "headH"}
-var c19eMiscKinds = []string{"scroll", "staticR", "staticE", "pqsE", "sortcol"}
+var c19eMiscKinds = []string{"scroll", "staticR", "staticE", "pqsE", "sortcol", "dbpanE", "jaegerE", "lokiL", "otlpTrace", "alertGetE", "alertHistE", "minionGetE", "contactNew", "pqsAggs"}
+var c19eMQueryKinds = []string{"oqK", "oqK", "oqK", "oqM", "oxK", "oxK", "oxKH", "pqK", "pqM", "plvE", "plvH", "psK", "mxTags", "mxQ"}
+var c19eIndex2Kinds = []string{"bulkCreate", "bulkUpdate", "bulkDelete", "bulkQ", "docCreateE", "docUpdateE", "docPostE", "mapE", "mapH", "headIE", "esSrchE", "esSrchH", "esDocGetE", "listCols", "pqsAggs"}
+var c19eDash2Kinds = []string{"foldUpdE", "foldCntE", "dashNewP", "dashMove"}
 var c19eColumnKinds = []string{"evkey", "evkey", "evkey", "sortcol", "sortcol", "sortq"}
 
 func c19eGenStep(r *rand.Rand, kind string, hostileShare int) string {
 	k := c19eKinds[kind]
+	if k.names == 0 {
+		return kind
+	}
 	pick := func() string {
 		if r.Intn(100) < hostileShare {
 			for {
@@ -286,29 +326,56 @@ func c19eGen(r *rand.Rand, n int, tier string) []string {
 	add(c19eStep("bulk", "c19sc"), c19eStep("sortcol", "c19sc", "../../../../../../../c19new"), c19eStep("sortcol", "c19sc", "m"))
 	add(c19eStep("evkey", "../../../../../../../c19new"), c19eStep("evkey", "@ROOT@/L1/c19victim.txt"), c19eStep("evkey", "m"), c19eStep("sortq", "../../../../../../../c19victim"), c19eStep("sortq", "m"))
 	add(c19eStep("ilookup", "../../c19victim.csv"), c19eStep("ilookup", "@ROOT@/L1/c19victim.csv"), c19eStep("staticR", "../c19victim.txt"), c19eStep("staticE", "../server.yaml"), c19eStep("scroll", "../../../c19victim"))
-	out = append(out, "cf", "cf nosuchkind:61", "cf bulk", "cf bulk:zz", "cf bulk:61:62:63", "cf lkgetH:"+c19eHexS("a/b"))
+	// metrics queries on a restarted server (the bootstrap series are rotated): tag key = file name of the tags tree reader
+	add(c19eStep("oqK", "c19k"), c19eStep("oqK", "../../../../../../c19victim.tt"), c19eStep("oqK", "../../../../../../c19victim.txt"), c19eStep("oxK", "../../../../../../../c19victim.tt"), c19eStep("oxKH", "@ROOT@/L1/c19victim.tt"))
+	add(c19eStep("plvE", "c19k"), c19eStep("plvE", ".."), c19eStep("plvH", ".."), c19eStep("pqK", "c19k"), c19eStep("psK", "job"), c19eStep("mxTags", "c19m"), c19eStep("mxTags", "../../../../../../c19victim.tt"), c19eStep("oqM", "../../../../../../c19victim.tt"))
+	// histories: a name is stored, the server restarts, the name is read back and used
+	add(c19eStep("promK", "c19k2"), c19eStep("usqSave", "../../../c19victim"), c19eStep("aliasAdd", "c19boot", "../../../../../c19victim"), c19eStep("restart"), c19eStep("oqK", "../../../../../../c19victim.tt"), c19eStep("usqGetE", "../../../c19victim"), c19eStep("galE", "../../../../../c19victim"), c19eStep("srchidx", "*"))
+	add(c19eStep("bulkCreate", "../../../c19victim"), c19eStep("bulkUpdate", "../../../c19victim"), c19eStep("bulkDelete", "../../../c19victim"), c19eStep("bulkQ", "../../../c19victim"), c19eStep("esSrchE", "..%2F..%2F..%2Fc19victim"), c19eStep("esSrchH", "..%2F..%2F..%2Fc19victim"), c19eStep("listCols", "../../../c19victim"))
+	add(c19eStep("dashMove", "../../../c19victim"), c19eStep("dashNewP", "../../../c19victim"), c19eStep("foldUpdE", "root-folder", "../../../c19victim"), c19eStep("pqsAggs", "c19boot", "../../../../../../../c19new"), c19eStep("lokiL", "../../../../../../../c19new"), c19eStep("otlpTrace", "../../../../../../../c19new"))
+	out = append(out, "cf", "cf nosuchkind:61", "cf bulk", "cf bulk:zz", "cf bulk:61:62:63", "cf lkgetH:"+c19eHexS("a/b"), "cf restart:61", "cf plvH:"+c19eHexS("a/b"))
 	for len(out) < n {
 		var steps []string
 		fam := r.Intn(100)
 		switch {
-		case fam < 28: // index life cycle: create valid, operate with hostile (valid prefix + separators), delete
+		case fam < 12: // metrics QUERIES against rotated segments: the tag key of a filter is the name of the file the reader opens
+			if r.Intn(4) == 0 { // fresh series with a second key, rotated by a restart
+				steps = append(steps, c19eStep(c19Pick(r, []string{"promK", "otsdbK", "otlpK"}), c19Pick(r, []string{"c19k2", "host", "k8s.pod.name"})), c19eStep("restart"))
+			}
+			for i := 2 + r.Intn(4); i > 0; i-- {
+				k := c19Pick(r, c19eMQueryKinds)
+				if r.Intn(2) == 0 && !c19eKinds[k].gated { // the depth of the tags tree directory below the install directory, and one more
+					steps = append(steps, c19eStep(k, strings.Repeat("../", 6+r.Intn(2))+c19Pick(r, []string{"c19victim.tt", "c19victim.tt", "c19victim.txt", "c19victim.csv", "c19victim", "c19victim/important.txt", "c19new"})))
+				} else {
+					steps = append(steps, c19eGenStep(r, k, 70))
+				}
+			}
+		case fam < 18: // histories: names are stored, the server restarts, the names are read back from its files and used
+			for i := 1 + r.Intn(3); i > 0; i-- {
+				steps = append(steps, c19eGenStep(r, c19Pick(r, []string{"usqSave", "aliasAdd", "palE", "upload", "bulk", "splunk", "sortcol", "dashNew", "foldNew", "promK", "otsdbM", "pqsAggs", "contactNew", "evkey"}), 75))
+			}
+			steps = append(steps, c19eStep("restart"))
+			for i := 2 + r.Intn(3); i > 0; i-- {
+				steps = append(steps, c19eGenStep(r, c19Pick(r, []string{"usqGetE", "usqDelE", "galE", "headE", "lkgetE", "ilookup", "srchidx", "delH", "sortq", "dashGetE", "foldGetE", "oqK", "oqM", "mxTags", "listCols", "esSrchE", "bulk", "aliasRm"}), 70))
+			}
+		case fam < 36: // index life cycle: create valid, operate with hostile (valid prefix + separators), delete
 			steps = append(steps, c19eStep(c19Pick(r, []string{"bulk", "bulkH", "docE", "splunk"}), c19eValid(r)))
 			for i := 2 + r.Intn(4); i > 0; i-- {
-				steps = append(steps, c19eGenStep(r, c19Pick(r, c19eIndexKinds), 75))
+				steps = append(steps, c19eGenStep(r, c19Pick(r, append(append([]string{}, c19eIndexKinds...), c19eIndex2Kinds...)), 75))
 			}
 			if r.Intn(2) == 0 {
 				steps = append(steps, c19eGenStep(r, "delH", 85))
 			}
-		case fam < 46: // lookups: upload valid, then hostile get/delete/upload/inputlookup
+		case fam < 50: // lookups: upload valid, then hostile get/delete/upload/inputlookup
 			steps = append(steps, c19eStep("upload", c19Pick(r, []string{"c19lk.csv", "c19lk", "c19lk.csv.gz", "x.csv"})))
 			for i := 2 + r.Intn(4); i > 0; i-- {
 				steps = append(steps, c19eGenStep(r, c19Pick(r, c19eLookupKinds), 75))
 			}
-		case fam < 64: // metrics: multi-sample series with hostile names / tag keys / values
+		case fam < 62: // metrics: multi-sample series with hostile names / tag keys / values
 			for i := 2 + r.Intn(4); i > 0; i-- {
 				steps = append(steps, c19eGenStep(r, c19Pick(r, c19eMetricKinds), 70))
 			}
-		case fam < 74: // column names: hostile JSON keys in events, sort columns, rotation with every background writer
+		case fam < 72: // column names: hostile JSON keys in events, sort columns, rotation with every background writer
 			idx := c19Pick(r, []string{"c19col", "c19ok", "c19idx"})
 			steps = append(steps, c19eStep("bulk", idx))
 			for i := 2 + r.Intn(3); i > 0; i-- {
@@ -326,12 +393,12 @@ func c19eGen(r *rand.Rand, n int, tier string) []string {
 					steps = append(steps, c19eGenStep(r, k, 80))
 				}
 			}
-		case fam < 80:
+		case fam < 79:
 			steps = append(steps, c19eStep("dashNew", c19eValid(r)))
 			for i := 2 + r.Intn(4); i > 0; i-- {
-				steps = append(steps, c19eGenStep(r, c19Pick(r, c19eDashKinds), 75))
+				steps = append(steps, c19eGenStep(r, c19Pick(r, append(append([]string{}, c19eDashKinds...), c19eDash2Kinds...)), 75))
 			}
-		case fam < 90:
+		case fam < 88:
 			steps = append(steps, c19eStep("bulk", "c19boot"))
 			for i := 2 + r.Intn(4); i > 0; i-- {
 				steps = append(steps, c19eGenStep(r, c19Pick(r, c19eAliasKinds), 75))
@@ -349,14 +416,16 @@ func c19eGen(r *rand.Rand, n int, tier string) []string {
 // ---------------------------------------------------------------- sandbox + worker
 
 type c19eSandbox struct {
-	root, inst string
-	cmd        *exec.Cmd
-	stdin      *bufio.Writer
-	lines      chan string
-	dataPath   string
-	victims    map[string][]byte // regular victim files: path → content
-	base       map[string]string // snapshot of the outside after populate + boot
-	dead       bool
+	root, inst   string
+	iport, qport string
+	cmd          *exec.Cmd
+	stdin        *bufio.Writer
+	lines        chan string
+	dataPath     string
+	victims      map[string][]byte // regular victim files: path → content
+	base         map[string]string // snapshot of the outside after populate + boot
+	watch        *c19eWatch        // inotify watches on every directory outside data/ and logs/
+	dead         bool
 }
 
 var c19ePool chan *c19eSandbox
@@ -389,6 +458,10 @@ func (s *c19eSandbox) populate() {
 		zw := gzip.NewWriter(&gz)
 		zw.Write([]byte("c19col\n" + tok + "-gz\n"))
 		zw.Close()
+		if len(c19eDonorTT) > 0 {
+			// a tags tree file as another siglens instance (or a backup of this one) leaves it: holds the tag values of its series
+			s.victims[filepath.Join(d, "c19victim.tt")] = c19eDonorTT
+		}
 		for name, content := range map[string][]byte{
 			"c19victim.txt":           []byte("do not touch " + tok + "-txt\n"),
 			"c19victim.csv":           []byte("c19col\n" + tok + "-csv\n"),
@@ -468,7 +541,7 @@ func (s *c19eSandbox) snapshot() map[string]string {
 	return m
 }
 
-func c19eNewSandbox() (*c19eSandbox, error) {
+func c19eNewSandbox(donor bool) (*c19eSandbox, error) {
 	root, err := os.MkdirTemp("/tmp", "c19e-")
 	if err != nil {
 		return nil, err
@@ -478,52 +551,12 @@ func c19eNewSandbox() (*c19eSandbox, error) {
 	}
 	s := &c19eSandbox{root: root}
 	s.populate()
-	self, err := os.Executable()
-	if err != nil {
-		return nil, err
-	}
-	cmd := exec.Command(self, "c19eworker", root, c19eFreePort(), c19eFreePort())
-	cmd.Dir = s.inst
-	cmd.Env = append(os.Environ(), "GOMAXPROCS=4")
-	in, err := cmd.StdinPipe()
-	if err != nil {
-		return nil, err
-	}
-	outp, err := cmd.StdoutPipe()
-	if err != nil {
-		return nil, err
-	}
-	cmd.Stderr = nil
-	if err := cmd.Start(); err != nil {
-		return nil, err
-	}
-	s.cmd = cmd
-	s.stdin = bufio.NewWriterSize(in, 1<<20)
-	s.lines = make(chan string, 16)
-	go func() {
-		sc := bufio.NewScanner(outp)
-		sc.Buffer(make([]byte, 1<<20), 1<<26)
-		for sc.Scan() {
-			if t := sc.Text(); strings.HasPrefix(t, "@@") {
-				s.lines <- t[2:]
-			}
-		}
-		close(s.lines)
-		cmd.Wait()
-	}()
+	s.iport, s.qport = c19eFreePort(), c19eFreePort()
 	c19eAllMu.Lock()
 	c19eAll = append(c19eAll, s)
 	c19eAllMu.Unlock()
-	select {
-	case l, ok := <-s.lines:
-		if !ok || !strings.HasPrefix(l, "READY ") {
-			s.kill()
-			return nil, fmt.Errorf("worker did not start: %q", l)
-		}
-		s.dataPath = strings.Fields(l)[1]
-	case <-time.After(90 * time.Second):
-		s.kill()
-		return nil, fmt.Errorf("worker start timed out")
+	if err := s.start(); err != nil {
+		return nil, err
 	}
 	// a live node has flushed events before: <data>/<host>/final exists
 	for _, rq := range c19eBuild(s, "bulk", []string{"c19boot"}) {
@@ -532,12 +565,120 @@ func c19eNewSandbox() (*c19eSandbox, error) {
 			return nil, fmt.Errorf("bootstrap ingest failed: %v", err)
 		}
 	}
+	// … and has been restarted since: the metrics ingested in its first life are ROTATED now (their tags trees are
+	// read from files named after the tag keys), index, alias and saved-query names come back from the files they went to
+	if !donor {
+		for _, rq := range c19eBuild(s, "otsdbK", []string{"c19k"}) {
+			if _, err := s.call(rq, 30*time.Second); err != nil {
+				s.kill()
+				return nil, fmt.Errorf("bootstrap metrics ingest failed: %v", err)
+			}
+		}
+		if err := s.restart(); err != nil {
+			return nil, err
+		}
+	}
 	s.base = s.snapshot()
+	s.watch = c19eNewWatch(s)
 	return s, nil
+}
+
+// start launches the server process of this sandbox (first start and every restart: same root, same ports)
+func (s *c19eSandbox) start() error {
+	self, err := os.Executable()
+	if err != nil {
+		return err
+	}
+	cmd := exec.Command(self, "c19eworker", s.root, s.iport, s.qport)
+	cmd.Dir = s.inst
+	cmd.Env = append(os.Environ(), "GOMAXPROCS=4")
+	in, err := cmd.StdinPipe()
+	if err != nil {
+		return err
+	}
+	outp, err := cmd.StdoutPipe()
+	if err != nil {
+		return err
+	}
+	cmd.Stderr = nil
+	if os.Getenv("C19E_DEBUG") != "" {
+		cmd.Stderr = os.Stderr
+	}
+	if err := cmd.Start(); err != nil {
+		return err
+	}
+	s.cmd = cmd
+	s.stdin = bufio.NewWriterSize(in, 1<<20)
+	lines := make(chan string, 16)
+	s.lines = lines
+	go func() {
+		sc := bufio.NewScanner(outp)
+		sc.Buffer(make([]byte, 1<<20), 1<<26)
+		for sc.Scan() {
+			if t := sc.Text(); strings.HasPrefix(t, "@@") {
+				lines <- t[2:]
+			}
+		}
+		close(lines)
+		cmd.Wait()
+	}()
+	select {
+	case l, ok := <-s.lines:
+		if !ok || !strings.HasPrefix(l, "READY ") {
+			s.kill()
+			return fmt.Errorf("worker did not start: %q", l)
+		}
+		s.dataPath = strings.Fields(l)[1]
+	case <-time.After(90 * time.Second):
+		s.kill()
+		return fmt.Errorf("worker start timed out")
+	}
+	return nil
+}
+
+// restart = what an operator's restart of the server is: the flush calls of ShutdownSiglensServer, the process ends, a new
+// process starts on the same directories and ports.  Everything the first process kept only in memory is gone, everything
+// it wrote under client-chosen names is read back.
+func (s *c19eSandbox) restart() error {
+	if _, err := s.call(c19eReq{Level: "flush"}, 30*time.Second); err != nil {
+		s.kill()
+		return fmt.Errorf("flush before restart failed: %v", err)
+	}
+	old, oldLines := s.cmd, s.lines
+	old.Process.Kill()
+	for range oldLines { // closed by the reader goroutine when the process is gone
+	}
+	for try := 0; ; try++ {
+		err := s.start()
+		if err == nil {
+			s.dead = false
+			// the query node reads the metadata of the rotated metrics segments a moment after the ports are open
+			probe := c19eRaw("q", "GET", "/otsdb/api/query?start="+c19eQStart+"&end="+c19eQEnd+"&m="+url.QueryEscape("avg:c19m{c19k=c19v}"), nil, nil, false)
+			for i := 0; i < 100; i++ {
+				rs, err := s.call(probe, 10*time.Second)
+				if err != nil {
+					s.kill()
+					return fmt.Errorf("restarted worker lost: %v", err)
+				}
+				if bytes.Contains(rs.Body, []byte(`"c19m"`)) {
+					break
+				}
+				time.Sleep(50 * time.Millisecond)
+			}
+			return nil
+		}
+		if try == 2 {
+			s.dead = true
+			return err
+		}
+		time.Sleep(200 * time.Millisecond)
+	}
 }
 
 func (s *c19eSandbox) kill() {
 	s.dead = true
+	s.watch.close()
+	s.watch = nil
 	if s.cmd != nil && s.cmd.Process != nil {
 		s.cmd.Process.Kill()
 	}
@@ -565,8 +706,114 @@ func (s *c19eSandbox) call(rq c19eReq, timeout time.Duration) (c19eResp, error) 
 	}
 }
 
+// ---------------------------------------------------------------- reads: inotify on everything outside data/ and logs/
+
+// c19eWatch reports which VICTIM files or directories (entries named c19victim*, and everything below a c19victim
+// directory) some process read since the last drain: IN_ACCESS = read(2)/pread(2)/getdents(2).  The parent itself reads
+// them only inside snapshot()/restore(), and drains afterwards; nothing else on the machine knows these files.
+type c19eWatch struct {
+	fd   int
+	dirs map[int32]string
+}
+
+func c19eNewWatch(s *c19eSandbox) *c19eWatch {
+	fd, err := syscall.InotifyInit1(syscall.IN_NONBLOCK | syscall.IN_CLOEXEC)
+	if err != nil {
+		return nil
+	}
+	w := &c19eWatch{fd: fd, dirs: map[int32]string{}}
+	filepath.WalkDir(s.root, func(p string, d fs.DirEntry, err error) error {
+		if err != nil || !d.IsDir() {
+			return nil
+		}
+		if s.allowed(p) {
+			return filepath.SkipDir
+		}
+		if wd, err := syscall.InotifyAddWatch(fd, p, syscall.IN_ACCESS); err == nil {
+			w.dirs[int32(wd)] = p
+		}
+		return nil
+	})
+	w.reads() // the walk itself read the directories
+	return w
+}
+
+func (w *c19eWatch) close() {
+	if w != nil {
+		syscall.Close(w.fd)
+	}
+}
+
+// reads returns the victim entries read since the last call (sorted, unique); drain = call it and drop the result
+func (w *c19eWatch) reads() []string {
+	if w == nil {
+		return nil
+	}
+	seen := map[string]bool{}
+	buf := make([]byte, 1<<16)
+	for {
+		n, err := syscall.Read(w.fd, buf)
+		if n <= 0 || err != nil {
+			break
+		}
+		for off := 0; off+syscall.SizeofInotifyEvent <= n; {
+			ev := (*syscall.InotifyEvent)(unsafe.Pointer(&buf[off]))
+			name := strings.TrimRight(string(buf[off+syscall.SizeofInotifyEvent:off+syscall.SizeofInotifyEvent+int(ev.Len)]), "\x00")
+			off += syscall.SizeofInotifyEvent + int(ev.Len)
+			dir, ok := w.dirs[ev.Wd]
+			if !ok || ev.Mask&syscall.IN_ACCESS == 0 || name == "" {
+				continue
+			}
+			if strings.HasPrefix(name, "c19victim") || strings.Contains(dir+"/", "/c19victim/") {
+				seen[filepath.Join(dir, name)] = true
+			}
+		}
+	}
+	var l []string
+	for p := range seen {
+		l = append(l, p)
+	}
+	sort.Strings(l)
+	return l
+}
+
+// ---------------------------------------------------------------- donor: a tags tree file written by a real server
+
+var c19eDonorTT []byte
+
+const c19eDonorKey = "c19tt"
+
+// c19eMakeDonor runs a throw-away server once, ingests one series {c19tt="C19SECRET-tt"} and keeps the tags tree file the
+// server wrote for the key: a victim file of the format the metrics reader understands
+func c19eMakeDonor() {
+	s, err := c19eNewSandbox(true)
+	if err != nil {
+		return
+	}
+	defer func() {
+		s.kill()
+		os.RemoveAll(s.root)
+	}()
+	body := c19eJSON([]interface{}{map[string]interface{}{"metric": "c19donor", "tags": map[string]string{c19eDonorKey: c19eSecret + "-tt", "job": "c19"}, "timestamp": c19eTs, "value": 1}})
+	if _, err := s.call(c19eRaw("i", "POST", "/otsdb/api/put", c19eJSONHdr, body, true), 30*time.Second); err != nil {
+		return
+	}
+	filepath.WalkDir(filepath.Join(s.inst, "data"), func(p string, d fs.DirEntry, err error) error {
+		if err == nil && !d.IsDir() && d.Name() == c19eDonorKey {
+			if b, err := os.ReadFile(p); err == nil && bytes.Contains(b, []byte(c19eSecret)) {
+				c19eDonorTT = b
+			}
+		}
+		return nil
+	})
+	if os.Getenv("C19E_DEBUG") != "" {
+		fmt.Fprintf(os.Stderr, "C19E donor tags tree file: %d bytes\n", len(c19eDonorTT))
+	}
+}
+
 func c19eGetSandbox() (*c19eSandbox, error) {
 	c19ePoolOnce.Do(func() {
+		c19eMakeDonor()
 		c19ePool = make(chan *c19eSandbox, c19eWorkers)
 		for i := 0; i < c19eWorkers; i++ {
 			c19ePool <- nil // created on first use
@@ -576,7 +823,9 @@ func c19eGetSandbox() (*c19eSandbox, error) {
 			defer c19eAllMu.Unlock()
 			for _, s := range c19eAll {
 				s.kill()
-				os.RemoveAll(s.root)
+				if os.Getenv("C19E_KEEP") == "" {
+					os.RemoveAll(s.root)
+				}
 			}
 		})
 	})
@@ -584,7 +833,7 @@ func c19eGetSandbox() (*c19eSandbox, error) {
 	if s == nil || s.dead {
 		var err error
 		for try := 0; try < 3; try++ {
-			if s, err = c19eNewSandbox(); err == nil {
+			if s, err = c19eNewSandbox(false); err == nil {
 				return s, nil
 			}
 		}
@@ -627,6 +876,11 @@ var c19eJSONHdr = map[string]string{"Content-Type": "application/json"}
 
 const c19eTs = 1700000000
 
+var c19eQStart, c19eQEnd = fmt.Sprint(c19eTs - 600), fmt.Sprint(c19eTs + 600)
+
+// replaced by the worker with the first UUID of its previous answer (same length as a UUID, so that Content-Length stays right)
+const c19eLastIDToken = "@LASTID@@@@@@@@@@@@@@@@@@@@@@@@@@@@@"
+
 func c19ePromBody(metric, key, val string) []byte {
 	ts := prompb.TimeSeries{Labels: []prompb.Label{{Name: "__name__", Value: metric}, {Name: key, Value: val}, {Name: "job", Value: "c19"}}}
 	for i := 0; i < 3; i++ {
@@ -668,13 +922,21 @@ func c19eOtlpLogBody(index string) []byte {
 }
 
 func c19eUploadBody(name string, overwrite bool) ([]byte, string) {
+	return c19eUploadBodyF(name, "up.csv", overwrite)
+}
+
+func c19eUploadBodyF(name, fileName string, overwrite bool) ([]byte, string) {
 	var body bytes.Buffer
 	w := multipart.NewWriter(&body)
 	w.WriteField("name", name)
 	if overwrite {
 		w.WriteField("overwrite", "true")
 	}
-	fw, _ := w.CreateFormFile("file", "up.csv")
+	// the Content-Disposition is written by hand: CreateFormFile would escape the quotes, nothing else
+	h := make(textproto.MIMEHeader)
+	h.Set("Content-Disposition", `form-data; name="file"; filename="`+strings.NewReplacer(`"`, ``, "\r", ``, "\n", ``, "\x00", ``).Replace(fileName)+`"`)
+	h.Set("Content-Type", "application/octet-stream")
+	fw, _ := w.CreatePart(h)
 	fw.Write([]byte("c19col\nC19UPLOADED\n"))
 	w.Close()
 	return body.Bytes(), w.FormDataContentType()
@@ -684,6 +946,9 @@ func c19eUploadBody(name string, overwrite bool) ([]byte, string) {
 func c19eBuild(s *c19eSandbox, kind string, names []string) []c19eReq {
 	for i := range names {
 		names[i] = strings.ReplaceAll(names[i], "@ROOT@", s.root)
+	}
+	if len(names) == 0 {
+		return nil
 	}
 	n := names[0]
 	n2 := ""
@@ -768,6 +1033,13 @@ func c19eBuild(s *c19eSandbox, kind string, names []string) []c19eReq {
 		return []c19eReq{H("indexAliasExist", "HEAD", map[string]string{"indexName": n}, nil, nil, false)}
 	case "upload", "uploadO":
 		body, ct := c19eUploadBody(n, kind == "uploadO")
+		return []c19eReq{c19eRaw("q", "POST", A+"/lookup-upload", map[string]string{"Content-Type": ct}, body, false)}
+	case "uploadF":
+		fn := n
+		if !strings.HasSuffix(strings.ToLower(fn), ".csv") && !strings.HasSuffix(strings.ToLower(fn), ".csv.gz") {
+			fn += ".csv"
+		}
+		body, ct := c19eUploadBodyF("c19lkf", fn, true)
 		return []c19eReq{c19eRaw("q", "POST", A+"/lookup-upload", map[string]string{"Content-Type": ct}, body, false)}
 	case "lkgetR":
 		return []c19eReq{c19eRaw("q", "GET", A+"/lookup-files/"+n, nil, nil, false)}
@@ -857,11 +1129,161 @@ func c19eBuild(s *c19eSandbox, kind string, names []string) []c19eReq {
 	case "staticR":
 		return []c19eReq{c19eRaw("q", "GET", "/"+n, nil, nil, false)}
 	case "staticE":
-		return []c19eReq{c19eRaw("q", "GET", "/"+esc, nil, nil, false), c19eRaw("q", "GET", "/"+strings.ReplaceAll(esc, "%2F", "/"), nil, nil, false)}
+		// … and the two template routes /{filename}.html and /js/{filename}.js
+		return []c19eReq{c19eRaw("q", "GET", "/"+esc, nil, nil, false), c19eRaw("q", "GET", "/"+strings.ReplaceAll(esc, "%2F", "/"), nil, nil, false),
+			c19eRaw("q", "GET", "/"+esc+".html", nil, nil, false), c19eRaw("q", "GET", "/js/"+esc+".js", nil, nil, false)}
 	case "pqsE":
 		return []c19eReq{c19eRaw("q", "GET", PQ+"/"+esc, nil, nil, false)}
+
+	// ---- metrics queries: the series of the bootstrap (metric c19m, tags c19k=c19v, job=c19, written before the restart) are in range
+	case "oqK", "oqM":
+		m, k := "c19m", "c19k"
+		if kind == "oqM" {
+			m = n
+		} else {
+			k = n
+		}
+		var rqs []c19eReq
+		for _, flt := range []string{k + "=c19v", k + "=*", k + "=c19v|x", k + "=c19v,job=c19"} {
+			rqs = append(rqs, c19eRaw("q", "GET", O+"/api/query?start="+c19eQStart+"&end="+c19eQEnd+"&m="+url.QueryEscape("avg:"+m+"{"+flt+"}"), nil, nil, false))
+		}
+		return rqs
+	case "oxK", "oxKH":
+		var rqs []c19eReq
+		for _, flt := range []string{"c19v", "*"} {
+			body := c19eJSON(map[string]interface{}{
+				"time":    map[string]interface{}{"start": c19eTs - 600, "end": c19eTs + 600, "aggregator": "sum"},
+				"filters": []interface{}{map[string]interface{}{"id": "f1", "tags": []interface{}{map[string]interface{}{"type": "literal_or", "tagk": n, "filter": flt, "groupBy": false}}}},
+				"metrics": []interface{}{map[string]interface{}{"id": "a", "metric": "c19m", "filter": "f1", "aggregator": "sum"}},
+				"outputs": []interface{}{map[string]interface{}{"id": "a", "alias": "a"}}})
+			if kind == "oxKH" {
+				rqs = append(rqs, H("otsdbQueryExp", "POST", nil, c19eJSONHdr, body, false))
+			} else {
+				rqs = append(rqs, c19eRaw("q", "POST", O+"/api/v1/query/exp", c19eJSONHdr, body, false))
+			}
+		}
+		return rqs
+	case "pqK", "pqM", "psK", "mxQ":
+		q := "c19m{" + n + `="c19v"}`
+		q2 := "c19m{" + n + `=~".*"}`
+		if kind == "pqM" {
+			q = `{__name__="` + strings.NewReplacer(`"`, ``, `\`, ``).Replace(n) + `"}`
+			q2 = n + `{c19k="c19v"}`
+		}
+		form := map[string]string{"Content-Type": "application/x-www-form-urlencoded"}
+		switch kind {
+		case "psK":
+			return []c19eReq{c19eRaw("q", "GET", P+"/api/v1/series?start="+c19eQStart+"&end="+c19eQEnd+"&match[]="+url.QueryEscape(q)+"&match[]="+url.QueryEscape(q2), nil, nil, false)}
+		case "mxQ":
+			return []c19eReq{c19eRaw("q", "POST", "/metrics-explorer/api/v1/timeseries", c19eJSONHdr, c19eJSON(map[string]interface{}{"start": c19eTs - 600, "end": c19eTs + 600,
+				"queries": []interface{}{map[string]string{"name": "a", "query": q, "qlType": "promql"}}, "formulas": []interface{}{map[string]string{"formula": "a"}}}), false)}
+		}
+		return []c19eReq{
+			c19eRaw("q", "POST", P+"/api/v1/query", form, []byte("time="+c19eQEnd+"&query="+url.QueryEscape(q)), false),
+			c19eRaw("q", "POST", P+"/api/v1/query_range", form, []byte("start="+c19eQStart+"&end="+c19eQEnd+"&step=60&query="+url.QueryEscape(q2)), false)}
+	case "plvE":
+		return []c19eReq{c19eRaw("q", "GET", P+"/api/v1/label/"+esc+"/values?start="+c19eQStart+"&end="+c19eQEnd, nil, nil, false)}
+	case "plvH":
+		rq := H("promLabelValues", "GET", map[string]string{"labelName": n}, nil, nil, false)
+		rq.Query = "start=" + c19eQStart + "&end=" + c19eQEnd
+		return []c19eReq{rq}
+	case "mxTags":
+		return []c19eReq{c19eRaw("q", "POST", "/metrics-explorer/api/v1/all_tags", c19eJSONHdr, c19eJSON(map[string]interface{}{"start": c19eTs - 600, "end": c19eTs + 600, "metric_name": n}), false)}
+
+	// ---- index names: the remaining bulk actions and routes
+	case "bulkCreate", "bulkUpdate", "bulkDelete", "bulkQ":
+		act := map[string]string{"bulkCreate": "create", "bulkUpdate": "update", "bulkDelete": "delete", "bulkQ": "index"}[kind]
+		body := append(c19eJSON(map[string]interface{}{act: map[string]string{"_index": n, "_id": "1"}}), '\n')
+		switch act {
+		case "update":
+			body = append(append(body, []byte(`{"doc":{"m":"c19"}}`)...), '\n')
+		case "delete":
+		default:
+			body = append(append(body, doc...), '\n')
+		}
+		// a valid action after the hostile one
+		body = append(append(append(body, []byte(`{"index":{"_index":"c19boot"}}`)...), '\n'), append(doc, '\n')...)
+		if kind == "bulkQ" {
+			return []c19eReq{c19eRaw("q", "POST", E+"/_bulk", c19eJSONHdr, body, true)}
+		}
+		return []c19eReq{c19eRaw("i", "POST", E+"/_bulk", c19eJSONHdr, body, true)}
+	case "docCreateE":
+		return []c19eReq{c19eRaw("i", "PUT", E+"/"+esc+"/_create/1", c19eJSONHdr, doc, true)}
+	case "docUpdateE":
+		return []c19eReq{c19eRaw("i", "POST", E+"/"+esc+"/_update/1", c19eJSONHdr, []byte(`{"doc":{"m":"c19"}}`), true)}
+	case "docPostE":
+		return []c19eReq{c19eRaw("i", "POST", E+"/"+esc+"/_doc", c19eJSONHdr, doc, true), c19eRaw("i", "PUT", E+"/"+esc+"/c19type/1", c19eJSONHdr, doc, true)}
+	case "mapE":
+		return []c19eReq{c19eRaw("i", "PUT", E+"/"+esc+"/_mapping", c19eJSONHdr, []byte(`{"properties":{"m":{"type":"keyword"}}}`), false),
+			c19eRaw("i", "PUT", E+"/"+esc+"/_mapping/c19type", c19eJSONHdr, []byte(`{"properties":{"m":{"type":"keyword"}}}`), false)}
+	case "mapH":
+		return []c19eReq{H("putIndex", "PUT", map[string]string{"indexName": n, "docType": "c19type"}, c19eJSONHdr, []byte(`{"properties":{"m":{"type":"keyword"}}}`), false)}
+	case "headIE":
+		return []c19eReq{c19eRaw("i", "HEAD", E+"/"+esc, nil, nil, false)}
+	case "esSrchE":
+		mq := []byte(`{"query":{"match_all":{}}}`)
+		return []c19eReq{c19eRaw("q", "POST", E+"/"+esc+"/_search", c19eJSONHdr, mq, false), c19eRaw("q", "GET", E+"/"+url.PathEscape(esc)+"/c19type/_search", c19eJSONHdr, mq, false),
+			c19eRaw("q", "POST", E+"/"+esc+"/_doc/_search", c19eJSONHdr, mq, false)}
+	case "esSrchH":
+		return []c19eReq{H("esSearch", "POST", map[string]string{"indexName": n}, c19eJSONHdr, []byte(`{"query":{"match_all":{}}}`), false)}
+	case "esDocGetE":
+		return []c19eReq{c19eRaw("q", "GET", E+"/"+esc+"/_doc/1", nil, nil, false), c19eRaw("q", "HEAD", E+"/"+esc+"/_doc/1", nil, nil, false)}
+	case "listCols":
+		return []c19eReq{c19eRaw("q", "POST", A+"/listColumnNames", c19eJSONHdr, c19eJSON(map[string]interface{}{"indexName": n, "startEpoch": "now-1h", "endEpoch": "now"}), false)}
+	case "pqsAggs":
+		ing := c19eRaw("i", "POST", E+"/_bulk", c19eJSONHdr, append(append(append(c19eJSON(map[string]interface{}{"index": map[string]string{"_index": n}}), '\n'), c19eJSON(map[string]interface{}{n2: "v", "m": "c19", "num": 7})...), '\n'), true)
+		ing.Settle = true
+		return []c19eReq{c19eRaw("q", "POST", PQ+"/aggs", c19eJSONHdr, c19eJSON(map[string]interface{}{"tableName": n, "groupByColumns": []string{n2}, "measureColumns": []string{"num"}}), false), ing}
+	case "dbpanE":
+		return []c19eReq{c19eRaw("q", "POST", A+"/search/"+esc, c19eJSONHdr, c19eJSON(map[string]interface{}{"searchText": "*", "indexName": "c19boot", "startEpoch": "now-1h", "endEpoch": "now", "queryLanguage": "Splunk QL"}), false)}
+	case "jaegerE":
+		return []c19eReq{c19eRaw("q", "GET", "/jaeger/api/services/"+esc+"/operations", nil, nil, false)}
+	case "lokiL":
+		return []c19eReq{c19eRaw("i", "POST", "/loki/api/v1/push", c19eJSONHdr, c19eJSON(map[string]interface{}{"streams": []interface{}{map[string]interface{}{
+			"stream": map[string]string{n: "v", "job": "c19"}, "values": []interface{}{[]string{fmt.Sprint(int64(c19eTs) * 1e9), "c19 line"}}}}}), true)}
+	case "otlpTrace":
+		return []c19eReq{c19eRaw("i", "POST", OT+"/v1/traces", map[string]string{"Content-Type": "application/x-protobuf"}, c19eOtlpTraceBody(n), true)}
+
+	// ---- dashboards / folders: remaining routes, ids inside bodies
+	case "foldUpdE":
+		return []c19eReq{c19eRaw("q", "PUT", A+"/dashboards/folders/"+esc, c19eJSONHdr, c19eJSON(map[string]string{"name": n2, "parentId": n2}), false)}
+	case "foldCntE":
+		return []c19eReq{c19eRaw("q", "GET", A+"/dashboards/folders/"+esc+"/count", nil, nil, false)}
+	case "dashNewP":
+		return []c19eReq{c19eRaw("q", "POST", A+"/dashboards/create", c19eJSONHdr, c19eJSON(map[string]string{"name": "c19p", "description": "c19", "parentId": n}), false)}
+	case "dashMove":
+		// create a dashboard, then move it: the id of the answer is put in by the worker (@LASTID@, padded to the length of a UUID)
+		return []c19eReq{c19eRaw("q", "POST", A+"/dashboards/create", c19eJSONHdr, c19eJSON(map[string]string{"name": "c19mv" + c19eHexS(n)[:c19Min(8, len(c19eHexS(n)))], "description": "c19", "parentId": "root-folder"}), false),
+			c19eRaw("q", "POST", A+"/dashboards/update", c19eJSONHdr, c19eJSON(map[string]interface{}{"id": c19eLastIDToken, "details": map[string]interface{}{"name": "c19mv2", "description": "c19", "folder": map[string]string{"id": n}}}), false)}
+
+	// ---- alerts
+	case "alertGetE":
+		return []c19eReq{c19eRaw("q", "GET", A+"/alerts/"+esc, nil, nil, false)}
+	case "alertHistE":
+		return []c19eReq{c19eRaw("q", "GET", A+"/alerts/"+esc+"/history", nil, nil, false)}
+	case "minionGetE":
+		return []c19eReq{c19eRaw("q", "GET", A+"/minionsearch/"+esc, nil, nil, false)}
+	case "contactNew":
+		return []c19eReq{c19eRaw("q", "POST", A+"/alerts/createContact", c19eJSONHdr, c19eJSON(map[string]interface{}{"contact_name": n, "email": []string{"c19@example.com"}}), false)}
 	}
 	return nil
+}
+
+func c19Min(a, b int) int {
+	if a < b {
+		return a
+	}
+	return b
+}
+
+func c19eOtlpTraceBody(service string) []byte {
+	req := &coltracepb.ExportTraceServiceRequest{ResourceSpans: []*tracepb.ResourceSpans{{
+		Resource: &resourcepb.Resource{Attributes: []*commonpb.KeyValue{c19eStrAttr("service.name", service)}},
+		ScopeSpans: []*tracepb.ScopeSpans{{Spans: []*tracepb.Span{{TraceId: bytes.Repeat([]byte{0xc1}, 16), SpanId: bytes.Repeat([]byte{0x9e}, 8), Name: service,
+			StartTimeUnixNano: uint64(c19eTs) * 1e9, EndTimeUnixNano: uint64(c19eTs)*1e9 + 1000, Attributes: []*commonpb.KeyValue{c19eStrAttr(service, "v")}}}}},
+	}}}
+	b, _ := gproto.Marshal(req)
+	return b
 }
 
 // ---------------------------------------------------------------- exec
@@ -891,7 +1313,7 @@ func c19eParse(line string) ([]c19eParsed, bool) {
 			}
 			p.names = append(p.names, s)
 		}
-		if k.gated && (p.names[0] == "" || strings.Contains(p.names[0], "/")) {
+		if k.gated && k.names > 0 && (p.names[0] == "" || strings.Contains(p.names[0], "/")) {
 			return nil, false // not a value the router can deliver: outside the domain of this handler's theorem
 		}
 		res = append(res, p)
@@ -936,11 +1358,25 @@ func c19eExec(line string) Result {
 		}
 		shown := fmt.Sprintf("step %d %s %q", i+1, st.kind, st.names)
 		var leaked []string
+		s.watch.reads() // drop what the parent's own snapshot / restore read
+		if st.kind == "restart" {
+			if err := s.restart(); err != nil {
+				tags["worker-lost:restart"] = true
+				s.kill()
+				c19ePutSandbox(s)
+				if s, err = c19eGetSandbox(); err != nil {
+					return Result{Out: "boot-failed: " + err.Error(), Tags: []string{"boot-failed"}}
+				}
+				before = s.base
+				continue
+			}
+		}
 		for _, rq := range c19eBuild(s, st.kind, append([]string{}, st.names...)) {
 			rs, err := s.call(rq, 25*time.Second)
 			if err != nil {
 				// a hang or a crash of the server is not what C19 is about: counted, the scenario goes on in a new server
 				tags["worker-lost:"+err.Error()] = true
+				tags["worker-lost-at:"+st.kind] = true
 				s.kill()
 				c19ePutSandbox(s)
 				if s, err = c19eGetSandbox(); err != nil {
@@ -963,6 +1399,17 @@ func c19eExec(line string) Result {
 					e = len(rs.Body)
 				}
 				leaked = append(leaked, string(rs.Body[j:e]))
+			}
+		}
+		readOut := s.watch.reads()
+		if os.Getenv("C19E_DEBUG") != "" {
+			fmt.Fprintf(os.Stderr, "C19E %s reads=%q watch=%v\n", shown, readOut, s.watch != nil && len(s.watch.dirs) > 0)
+			if fds, err := os.ReadDir(fmt.Sprintf("/proc/%d/fd", s.cmd.Process.Pid)); err == nil {
+				for _, fd := range fds {
+					if l, err := os.Readlink(fmt.Sprintf("/proc/%d/fd/%s", s.cmd.Process.Pid, fd.Name())); err == nil && strings.Contains(l, "c19victim") {
+						fmt.Fprintf(os.Stderr, "C19E   server still holds fd %s -> %s\n", fd.Name(), s.show(l))
+					}
+				}
 			}
 		}
 		after := s.snapshot()
@@ -1005,9 +1452,23 @@ func c19eExec(line string) Result {
 			}
 			after = s.base
 		}
-		if len(leaked) > 0 {
-			res.Fails = append(res.Fails, PropFail{Sig: "confine/" + sigKind + "/read-outside",
-				Msg: fmt.Sprintf("%s: the response contains the content of a victim file outside the data and log directories: %q", shown, leaked[0])})
+		if len(leaked) > 0 || len(readOut) > 0 {
+			var what []string
+			if len(leaked) > 0 {
+				what = append(what, fmt.Sprintf("the response contains the content of a victim file outside the data and log directories: %q", leaked[0]))
+				tags["read:leaked"] = true
+			}
+			if len(readOut) > 0 {
+				for j := range readOut {
+					readOut[j] = s.show(readOut[j])
+				}
+				if len(readOut) > 6 {
+					readOut = append(readOut[:6], "…")
+				}
+				what = append(what, "the server process read (read/pread/getdents, seen by inotify IN_ACCESS) entries OUTSIDE its data and log directories: "+strings.Join(readOut, ", "))
+				tags["read:accessed"] = true
+			}
+			res.Fails = append(res.Fails, PropFail{Sig: "confine/" + sigKind + "/read-outside", Msg: shown + ": " + strings.Join(what, "; ")})
 			tags["violation"] = true
 		}
 		before = after
